@@ -652,7 +652,7 @@ class MainTransformer(object):
 
         return (not isinstance(target, ast.Type) or
                 target not in ast.BASIC_TYPES or
-                target.ctype.endswith('*'))
+                (target.ctype or '').endswith('*'))
 
     def _apply_transfer_annotation(self, parent, node, annotations):
         transfer_annotation = annotations.get(ANN_TRANSFER)
